@@ -347,4 +347,4 @@ def run(chk, S: Session):
     rb2 = chk.rule("R-C13-B2", "'requested sample shapes are prepended': a Normal with extra leading axes draws by mapping the same sampling method over one axis at a time (rule of C15)", floor=6)
     borrow(chk, S, rb2, "C15", lambda r, c: r == "R-C15-4" and "sample" in c)
     rb3 = chk.rule("R-C13-B3", "a sequence that still carries its filtering marginals is sampled from its terminal marginal: remove_filtering_distributions keeps the entry the backward (forward) factorisation starts from (rule of C03)", floor=2)
-    borrow(chk, S, rb3, "C03", lambda r, c: r == "R-C03-1" and "remove_filtering_distributions" in c)
+    borrow(chk, S, rb3, "C03", lambda r, c: (r == "R-C03-1" and "remove_filtering_distributions" in c) or (r == "R-C03-3" and "keeps the direction" in c))
